@@ -97,11 +97,17 @@ func VerifC01Equal(h *verifh.H) {
 		if wl := h.Choice(tag+"wlen", maxLen+2); wl > 0 {
 			e.Properties["ns0:w"] = h.StrOver(tag+"wv", wl-1, "xy")
 		}
-		switch h.Choice(tag+"r", 3) {
-		case 1:
-			e.References["ns0:p"] = "ns0:t1"
-		case 2:
-			e.References["ns0:p"] = []interface{}{"ns0:t1", "ns0:t2"}
+		// references: none, one symbolic ref, or an array of 2..3 symbolic refs
+		// (order and multiplicity are part of the version)
+		switch n := h.Choice(tag+"r", 2+h.Param("maxRefs", 2)); {
+		case n == 1:
+			e.References["ns0:p"] = "ns0:t" + h.StrOver(tag+"r0", 1, "123")
+		case n >= 2:
+			arr := make([]interface{}, n)
+			for k := 0; k < n; k++ {
+				arr[k] = "ns0:t" + h.StrOver(tag+"r"+string(rune('0'+k)), 1, "123")
+			}
+			e.References["ns0:p"] = arr
 		}
 		e.IsDeleted = h.Choice(tag+"del", 2) == 1
 		e.Recorded = 1700000000000000000
@@ -133,9 +139,19 @@ func VerifC01Equal(h *verifh.H) {
 	r2, ok2 := this.References["ns0:p"]
 	sameRefs := ok1 == ok2
 	if ok1 && ok2 {
-		_, a1 := r1.([]interface{})
-		_, a2 := r2.([]interface{})
+		l1, a1 := r1.([]interface{})
+		l2, a2 := r2.([]interface{})
 		sameRefs = a1 == a2
+		if a1 && a2 {
+			sameRefs = len(l1) == len(l2)
+			if sameRefs {
+				for k := range l1 {
+					sameRefs = h.And(sameRefs, h.StrEq(l1[k].(string), l2[k].(string)))
+				}
+			}
+		} else if !a1 && !a2 {
+			sameRefs = h.StrEq(r1.(string), r2.(string))
+		}
 	}
 	same = h.And(same, sameRefs)
 	// known finding C01-undelete-equal-length: the comparison ignores the
